@@ -53,7 +53,7 @@ def mutants_for(pid):
 
 def cmd_mutants(pids):
     results = {}
-    rpath = os.path.join(ROOT, "mutants", "RESULTS.json")
+    rpath = os.environ.get("SENS_RESULTS") or os.path.join(ROOT, "mutants", "RESULTS.json")      # SENS_RESULTS: partial file of a parallel group
     if os.path.exists(rpath):
         with open(rpath) as f:
             results = json.load(f)
